@@ -95,9 +95,14 @@ fn check_shutdown(rt: &tokio::runtime::Runtime, s: &ShutdownScenario, st: &mut S
     let res: Result<(), Failure> = rt.block_on(async {
         // waiters taken before anything happens
         let mut waiter_tasks = vec![];
-        for _ in 0..s.waiters {
+        for wi in 0..s.waiters {
             let w = server.wait_for_shutdown();
-            waiter_tasks.push(tokio::spawn(async move { w.await }));
+            let wl = log.clone();
+            waiter_tasks.push(tokio::spawn(async move {
+                let r = w.await;
+                wl.push(Ev::WaiterReleased(wi as u64));
+                r
+            }));
         }
         let (close_tx, close_rx) = tokio::sync::watch::channel(false);
         let mut handles = vec![];
@@ -250,6 +255,12 @@ fn check_shutdown(rt: &tokio::runtime::Runtime, s: &ShutdownScenario, st: &mut S
         }
         let pos = |e: Ev| ev.iter().position(|x| *x == e);
         let close_returned = pos(Ev::CloseReturned).unwrap();
+        // shutdown "finishes" for a waiter when its future resolves: the same ordering applies to each of them
+        let first_waiter_released = ev.iter().position(|x| matches!(x, Ev::WaiterReleased(_)));
+        let close_called = pos(Ev::CloseCalled).unwrap();
+        if let Some(w) = first_waiter_released {
+            ensure!(w > close_called, "waiter-released-before-shutdown-requested", "a wait_for_shutdown() future resolved before close() was called: {}", trace());
+        }
         let mut inflight = 0;
         for (i, cs) in s.conns.iter().enumerate() {
             let id = i as u64 + 1;
@@ -265,6 +276,13 @@ fn check_shutdown(rt: &tokio::runtime::Runtime, s: &ShutdownScenario, st: &mut S
                     // 2. its handler completed before close() returned
                     let c = pos(Ev::Completed(id));
                     ensure!(c.map(|c| c < close_returned).unwrap_or(false), "close-returned-before-handler-finished", "connection {}: {}", id, trace());
+                    ensure!(
+                        c.zip(first_waiter_released).map(|(c, w)| c < w).unwrap_or(true),
+                        "waiter-released-before-handler-finished",
+                        "connection {}: a wait_for_shutdown() future resolved while this in-flight handler was still running: {}",
+                        id,
+                        trace()
+                    );
                 }
                 ConnState::InFlightLeaver { .. } => {
                     if entered_before_close.contains(&id) && !ended_before_close.contains(&id) {
@@ -277,6 +295,13 @@ fn check_shutdown(rt: &tokio::runtime::Runtime, s: &ShutdownScenario, st: &mut S
                             c.map(|c| c < close_returned).unwrap_or(false),
                             "close-returned-before-detached-handler-finished",
                             "connection {}: a detached handler whose client had left was still running when close() returned: {}",
+                            id,
+                            trace()
+                        );
+                        ensure!(
+                            c.zip(first_waiter_released).map(|(c, w)| c < w).unwrap_or(true),
+                            "waiter-released-before-detached-handler-finished",
+                            "connection {}: a wait_for_shutdown() future resolved while a detached handler (client gone) was still running: {}",
                             id,
                             trace()
                         );
@@ -322,7 +347,7 @@ fn check_shutdown(rt: &tokio::runtime::Runtime, s: &ShutdownScenario, st: &mut S
 }
 
 pub fn run(ctx: &mut Ctx) {
-    ctx.rule = "scenarios = task mode x 1-8 connections in generated states at the moment close() is called (handler entered and waiting with the client staying, over HTTP/1.1 or HTTP/2, plain or upload, optionally having dropped its RequestContext; handler entered and client already gone, FIN or RST; a 4 MiB response half read; idle keep-alive; half-sent request that is later finished or abandoned) x 1-3 wait_for_shutdown() futures taken beforehand x handler release delays of 0-120 ms after close() was called x 1-4 server workers. Oracle over the event log: stayers read complete correct responses; Completed(id) of every in-flight handler and every detached handler precedes CloseReturned; connect() is refused afterwards; close() and all waiters agree. non-trivial = >= 2 in-flight handlers at close, or a detached handler outliving its client; distinct by scenario".into();
+    ctx.rule = "scenarios = task mode x 1-8 connections in generated states at the moment close() is called (handler entered and waiting with the client staying, over HTTP/1.1 or HTTP/2, plain or upload, optionally having dropped its RequestContext; handler entered and client already gone, FIN or RST; a 4 MiB response half read; idle keep-alive; half-sent request that is later finished or abandoned) x 1-3 wait_for_shutdown() futures taken beforehand x handler release delays of 0-120 ms after close() was called x 1-4 server workers. Oracle over the event log: stayers read complete correct responses; Completed(id) of every in-flight handler and every detached handler precedes CloseReturned and the release of every wait_for_shutdown() future; connect() is refused afterwards; close() and all waiters agree. non-trivial = >= 2 in-flight handlers at close, or a detached handler outliving its client; distinct by scenario".into();
     ctx.assume("liveness is only observed within a 30 s bound; a timeout there is reported as a violation of 'close-hangs' only because every handler is released by the harness within 120 ms");
     ctx.max_shrink_iters = 60;
     let rt = tokio::runtime::Builder::new_multi_thread().worker_threads(4).enable_all().build().unwrap();
